@@ -537,6 +537,8 @@ def rule_G(ctx):
                     fail(op, 'table-alias', 'the result has its own copy of the feature table (a later feature on one track must not appear on the other)', case)
 
     TIMES = {0: [[]], 1: [[5]], 2: [[5, 7], [5, 5], [7, 5]], 3: [[5, 7, 9], [5, 5, 9], [9, 7, 5], [5, 9, 7]], 4: [[1, 3, 5, 7], [1, 3, 3, 7]], 5: [[1, 3, 5, 7, 9]]}
+    if ctx.tier == 'thorough':
+        TIMES.update({6: [[1, 3, 5, 7, 9, 11], [1, 3, 3, 3, 9, 11], [11, 9, 7, 5, 3, 1]], 7: [[1, 2, 3, 4, 5, 6, 7], [7, 7, 1, 1, 4, 4, 4]], 8: [[1, 2, 3, 4, 5, 6, 7, 8]]})
     for n, tlists in sorted(TIMES.items()):
         for times in tlists:
             # head / tail trimming, decimation
